@@ -341,6 +341,7 @@ class C06(Machine):
         if shared_objs:
             check_shared(-1, objs[-1]["spec"], "constructor", rotate=False)
         seen_arr = False
+        handed = []
         names_seen = set()
         ops = run["ops"]
         for step, op in enumerate(ops):
@@ -424,6 +425,18 @@ class C06(Machine):
                             f"long-lived object returned {C.short(val_s)}; "
                             f"a fresh object returns {C.short(ref)} ({why}); "
                             f"perpetrator: {perp}")
+            # (iii') arrays handed out by earlier queries are the caller's:
+            # they keep the values they had when they were returned
+            for (hk, hstep, arr, snap_) in handed:
+                if arr.tobytes() != snap_:
+                    self._viol(R, spec, key, "returned-array-overwritten",
+                               hk, f"step {step}: the array that {hk} "
+                                   f"returned at step {hstep} changed while "
+                                   f"{spec.name}.{key} was evaluated")
+            handed[:] = [h for h in handed if h[2].tobytes() == h[3]]
+            if isinstance(val, np.ndarray) and val.size and not rnd:
+                handed.append((key, step, val, val.tobytes()))
+                del handed[:-8]
             # (iii) caller-owned arrays unchanged
             R.probe("caller_arrays_checked")
             for hi, (k_, a, b, dt, sh) in enumerate(held):
